@@ -309,7 +309,7 @@ def machine_case(draw, kind):
         fmax, cols = FS / 2, None
     else:
         tc = draw(tables.table_case(max_rows=8, max_cols=12, min_cols=3))
-        tc["fscale"] = draw(st.sampled_from([1.0, 1.0, 1.0, 1e-6, 1e3]))  # the same tables in another frequency unit (slow processes, kHz)
+        tc["fscale"] = draw(st.sampled_from([1.0, 1.0, 1.0, 1e-6, 1e-9, 1e3]))  # the same tables in another frequency unit (slow processes, kHz)
         tc["empty_col"] = False
         tc["pnan"] = min(tc["pnan"], 0.3)
         c["table"] = tc
